@@ -114,12 +114,19 @@ func (x *Exec) mapCompsInto(mt *types.Map, out modset) {
 	out.whole(ln, SArr(SInt, SBV(64)))
 }
 
+func (x *Exec) mapCompsAt(mt *types.Map, m ssa.Value, out modset) {
+	dn, vn, ln, ks, vs := x.mapComps(mt)
+	out.at(dn, SArr(SInt, SArr(ks, SBool)), m)
+	out.at(vn, SArr(SInt, SArr(ks, vs)), m)
+	out.at(ln, SArr(SInt, SBV(64)), m)
+}
+
 func (x *Exec) instrMods(ins ssa.Instruction, out modset, visiting map[*ssa.Function]bool) {
 	switch in := ins.(type) {
 	case *ssa.Store:
 		x.addrRootComp(in.Addr, out)
 	case *ssa.MapUpdate:
-		x.mapCompsInto(in.Map.Type().Underlying().(*types.Map), out)
+		x.mapCompsAt(in.Map.Type().Underlying().(*types.Map), in.Map, out)
 	case *ssa.MakeMap:
 		x.mapCompsInto(in.Type().Underlying().(*types.Map), out)
 	case *ssa.Alloc:
@@ -142,7 +149,7 @@ func (x *Exec) callMods(c *ssa.CallCommon, out modset, visiting map[*ssa.Functio
 				out.at(n, s, c.Args[0])
 			}
 		case "delete":
-			x.mapCompsInto(c.Args[0].Type().Underlying().(*types.Map), out)
+			x.mapCompsAt(c.Args[0].Type().Underlying().(*types.Map), c.Args[0], out)
 		}
 		return
 	}
@@ -229,10 +236,16 @@ func (x *Exec) loopMods(lp *loop) modset {
 	// a reference is usable only if it is the same value in every iteration;
 	// a slice that is only ever re-assigned by append(self, ...) writes into the
 	// array it had at loop entry or into fresh arrays
+	written := map[string]bool{}
+	for n, mi := range out {
+		if mi.whole || len(mi.refs) > 0 {
+			written[n] = true
+		}
+	}
 	for _, mi := range out {
 		var keep []ssa.Value
 		for _, r := range mi.refs {
-			if loopInvariantValue(lp, r) {
+			if loopInvariantValue(lp, r) || x.invariantLoad(lp, r, written) {
 				keep = append(keep, r)
 				continue
 			}
@@ -321,10 +334,35 @@ func loopInvariantValue(lp *loop, v ssa.Value) bool {
 	return false
 }
 
+// invariantLoad: v loads a field through an invariant address, and no write in
+// the loop goes to that field's component: the loaded value is invariant too.
+func (x *Exec) invariantLoad(lp *loop, v ssa.Value, written map[string]bool) bool {
+	u, ok := v.(*ssa.UnOp)
+	if !ok || u.Op != token.MUL {
+		return false
+	}
+	fa, ok := u.X.(*ssa.FieldAddr)
+	if !ok || !loopInvariantValue(lp, fa) {
+		return false
+	}
+	if _, nested := fa.X.(*ssa.FieldAddr); nested {
+		return false
+	}
+	st := fa.X.Type().Underlying().(*types.Pointer).Elem()
+	n, _ := x.fieldComp(st, fa.Field)
+	return !written[n]
+}
+
 // addrOf evaluates an (invariant) address value that may not have been executed yet.
 func (x *Exec) addrOf(fr *Frame, v ssa.Value) Value {
 	if val, ok := fr.vals[v]; ok {
 		return val
+	}
+	if u, ok := v.(*ssa.UnOp); ok && u.Op == token.MUL && x.curLoopState != nil {
+		if a, ok := x.addrOf(fr, u.X).(*Addr); ok {
+			return x.load(x.curLoopState, a)
+		}
+		return nil
 	}
 	if isConstLike(v) {
 		return x.get(fr, v)
@@ -514,6 +552,8 @@ func (x *Exec) enterLoop(fr *Frame, lp *loop, st *State) {
 		x.note("loop %d of %s has no invariant: loop-modified state is arbitrary after the cut", lp.ordinal, shortFn(fr.fn.String()))
 	}
 	mods := x.loopMods(lp)
+	x.curLoopState = st
+	defer func() { x.curLoopState = nil }()
 	if os.Getenv("GOVC_VERBOSE") != "" {
 		for n, mi := range mods {
 			fmt.Fprintf(os.Stderr, "loop %d of %s modifies %s whole=%v refs=%d accum=%d\n", lp.ordinal, fr.fn.Name(), n, mi.whole, len(mi.refs), len(mi.accum))
@@ -526,6 +566,7 @@ func (x *Exec) enterLoop(fr *Frame, lp *loop, st *State) {
 		}
 	}
 	allocAtEntry := st.alloc
+	x.bumpAlloc(st) // objects allocated by earlier iterations
 	// havoc phis
 	for _, ins := range hdr.Instrs {
 		phi, ok := ins.(*ssa.Phi)
@@ -547,6 +588,7 @@ func (x *Exec) enterLoop(fr *Frame, lp *loop, st *State) {
 		x.compSort[n] = mi.sort
 		if mi.whole {
 			st.heap[n] = x.w.Fresh(n, mi.sort)
+			x.noteBase(st.heap[n], st.alloc)
 			continue
 		}
 		if len(mi.accum) > 0 {
@@ -554,6 +596,7 @@ func (x *Exec) enterLoop(fr *Frame, lp *loop, st *State) {
 			// loop change; every other pre-existing row is unchanged
 			old := x.comp(st, n, mi.sort)
 			nh := x.w.Fresh(n, mi.sort)
+			x.noteBase(nh, st.alloc)
 			ts := x.w.ts
 			r := ts.Bound("r", SInt)
 			cond := []*Term{x.w.intLe(ts.IntLit(0), r), x.w.intLe(r, allocAtEntry)}
@@ -603,7 +646,6 @@ func (x *Exec) enterLoop(fr *Frame, lp *loop, st *State) {
 		}
 		st.heap[n] = h
 	}
-	x.bumpAlloc(st)
 	x.autoInvariants(fr, lp, st)
 	if ls != nil {
 		for k, f := range ls.invSSA {
@@ -644,9 +686,12 @@ func (x *Exec) backEdge(fr *Frame, lp *loop, from *ssa.BasicBlock, cond *Term, s
 				sub := st.clone()
 				sub.guard = cond
 				var fact *Term
-				if ai.up {
+				switch {
+				case ai.bound != nil:
+					fact = x.w.ts.Or(x.w.bvslt(nv, ai.bound), x.w.ts.Eq(nv, ai.entry))
+				case ai.up:
 					fact = x.w.bvsle(ai.entry, nv)
-				} else {
+				default:
 					fact = x.w.bvsle(nv, ai.entry)
 				}
 				name := ai.phi.Comment
@@ -780,6 +825,21 @@ func (x *Exec) autoInvariants(fr *Frame, lp *loop, st *State) {
 		}
 		x.assumeIn(st, fact)
 		lp.autoInv = append(lp.autoInv, autoInv{phi: phi, entry: ev, up: step > 0})
+		// upper bound from the loop test `phi+k < N` (N loop invariant), which
+		// guards every back edge: phi < N or phi is still the entry value
+		if step > 0 {
+			if iff, ok := hdr.Instrs[len(hdr.Instrs)-1].(*ssa.If); ok {
+				if cmp, ok := iff.Cond.(*ssa.BinOp); ok && cmp.Op == token.LSS && lp.blocks[hdr.Succs[0]] && !lp.blocks[hdr.Succs[1]] {
+					if inc, ok := cmp.X.(*ssa.BinOp); ok && inc.Op == token.ADD && inc.X == phi && loopInvariantValue(lp, cmp.Y) {
+						if nv, ok := x.addrOf(fr, cmp.Y).(*Term); ok && nv.sort == pv.sort {
+							ub := x.w.ts.Or(x.w.bvslt(pv, nv), x.w.ts.Eq(pv, ev))
+							x.assumeIn(st, ub)
+							lp.autoInv = append(lp.autoInv, autoInv{phi: phi, entry: ev, bound: nv})
+						}
+					}
+				}
+			}
+		}
 	}
 }
 
